@@ -463,4 +463,83 @@ def FinderRev.run (cfg : Api.Cfg) :
     let (os, f'', h'') ← FinderRev.run cfg ops f' h'
     pure (o.toList ++ os, f'', h'')
 
+/-! ### running an iterator to exhaustion (`finder.find_iter(hay).count()`-style use) -/
+
+/-- `for _ in it { n += 1 }`: call `next()` until the first `None`, counting the matches.
+MODEL DEVIATION: the Rust loop has no bound; the model gives it `fuel` iterations (callers pass
+`haystack.len() + 2`: at most `len + 1` matches, then the `None`) and panics when the fuel runs
+out, which `Proofs/Memmem.lean` (`Finder.countIter_ok`) shows never happens. -/
+def FindIter.countLoop (cfg : Api.Cfg) : Nat → FindIter → Nat → M Nat
+  | 0, _, _ => fail (.panic "model: find_iter exhaustion ran out of fuel")
+  | fuel + 1, it, acc => do
+    match ← it.next cfg with
+    | (none, _) => pure acc
+    | (some _, it') => FindIter.countLoop cfg fuel it' (acc + 1)
+
+def FindRevIter.countLoop (cfg : Api.Cfg) : Nat → FindRevIter → Nat → M Nat
+  | 0, _, _ => fail (.panic "model: rfind_iter exhaustion ran out of fuel")
+  | fuel + 1, it, acc => do
+    match ← it.next cfg with
+    | (none, _) => pure acc
+    | (some _, it') => FindRevIter.countLoop cfg fuel it' (acc + 1)
+
+/-- `finder.find_iter(haystack)` run to exhaustion.  `find_iter` is
+`FindIter::new(haystack, self.as_ref())`: the iterator holds a BORROWED copy of the finder,
+whatever the ownership of `self`, so nothing here can allocate (no heap argument). -/
+def Finder.countIter (cfg : Api.Cfg) (f : Finder) (haystack : Slice) : M Nat :=
+  FindIter.countLoop cfg (haystack.len + 2) (f.findIter haystack) 0
+
+/-- `finder.rfind_iter(haystack)` run to exhaustion (`FindRevIter::new(haystack, self.as_ref())`) -/
+def FinderRev.countIter (cfg : Api.Cfg) (f : FinderRev) (haystack : Slice) : M Nat :=
+  FindRevIter.countLoop cfg (haystack.len + 2) (f.rfindIter haystack) 0
+
+/-- `FinderOp` plus "iterate over this haystack to exhaustion and report the number of
+matches" (kept as a separate type so that the `FinderOp` machines and their theorems are
+unchanged) -/
+inductive FinderOpX where
+  | base (op : FinderOp)
+  | iter (haystack : Slice)
+  deriving Repr, Inhabited
+
+/-- an observation of the extended machine -/
+inductive OutX where
+  | base (o : Out)
+  | count (k : Nat)
+  deriving Repr, DecidableEq, Inhabited
+
+def Finder.stepX (cfg : Api.Cfg) (op : FinderOpX) (f : Finder) (h : Heap) :
+    M (Option OutX × Finder × Heap) :=
+  match op with
+  | .base op => do
+    let (o, f', h') ← f.step cfg op h
+    pure (o.map OutX.base, f', h')
+  | .iter haystack => do
+    let k ← f.countIter cfg haystack
+    pure (some (.count k), f, h)
+
+def Finder.runX (cfg : Api.Cfg) : List FinderOpX → Finder → Heap → M (List OutX × Finder × Heap)
+  | [], f, h => pure ([], f, h)
+  | op :: ops, f, h => do
+    let (o, f', h') ← f.stepX cfg op h
+    let (os, f'', h'') ← Finder.runX cfg ops f' h'
+    pure (o.toList ++ os, f'', h'')
+
+def FinderRev.stepX (cfg : Api.Cfg) (op : FinderOpX) (f : FinderRev) (h : Heap) :
+    M (Option OutX × FinderRev × Heap) :=
+  match op with
+  | .base op => do
+    let (o, f', h') ← f.step cfg op h
+    pure (o.map OutX.base, f', h')
+  | .iter haystack => do
+    let k ← f.countIter cfg haystack
+    pure (some (.count k), f, h)
+
+def FinderRev.runX (cfg : Api.Cfg) :
+    List FinderOpX → FinderRev → Heap → M (List OutX × FinderRev × Heap)
+  | [], f, h => pure ([], f, h)
+  | op :: ops, f, h => do
+    let (o, f', h') ← f.stepX cfg op h
+    let (os, f'', h'') ← FinderRev.runX cfg ops f' h'
+    pure (o.toList ++ os, f'', h'')
+
 end Memchr.Memmem
